@@ -1408,18 +1408,19 @@ PROPS['C02'] = dict(
     module='FlacModel.Props.C02',
     theorems=['Flac.C02.gen_crc8_is_poly07', 'Flac.C02.gen_crc16_is_poly8005', 'Flac.C02.gen_crc8_update_shape',
               'Flac.C02.gen_crc16_update_shape', 'Flac.C02.gen_crc16_one_byte', 'Flac.C02.gen_crc8_one_byte',
+              'Flac.C02.crc16_all_messages', 'Flac.C02.crc8_all_messages', 'Flac.CrcEq.step0_xor', 'Flac.CrcEq.fold_xor',
               'Flac.C02.gen_tables_eq_rfc', 'Flac.C02.gen_write_read_inverse', 'Flac.C02.rfc_layout_is_rchunks'],
     components=[EncFrame('spec')],
     rule='every generated frame of the real encoder (same space as C01) is decoded by the independent L0 decoder Spec.specDecode '
          '(RFC partition layout, every MUST of section 9, bit-serial CRC-8/CRC-16, exact integer reconstruction) which must accept it, consume exactly '
          'the frame, read the declared rate/depth/channels/frame number and reproduce the input PCM; non-trivial = encoded frame with more than a handful of samples',
     claim='Obligations re-proved on every run against definitions regenerated from the source: both CRC tables equal the tables of the RFC polynomials '
-          '(all 256 entries, decide +kernel against a bit-serial LFSR), the update expressions have the MSB-first table-driven shape, every header code '
+          '(all 256 entries, decide +kernel against a bit-serial LFSR), crc16_all_messages / crc8_all_messages: the table-driven checksums equal the bit-serial '
+          'LFSRs of the RFC polynomials on EVERY message of every length (linearity of the LFSR step over xor, Proofs/CrcEq.lean), every header code '
           'table equals the RFC table, writer codes are read back to the same values, and the slicing the encoder keeps is the RFC partition layout '
           '(rfc_layout_is_rchunks). Frame-level conformance of the whole output (enc_is_serialize) is decided by the independent L0 decoder on generated '
           'inputs, not yet by a theorem over an encoder model.',
-    note='L0 is my reading of RFC 9639 (no network); the byte-wise/bit-wise CRC equivalence beyond one-byte messages is the textbook identity and is '
-         'exercised, not mechanised; whole-file rules (consecutive numbering, non-final block size) are checked under C09.',
+    note='L0 is my reading of RFC 9639 (no network); whole-file rules (consecutive numbering, non-final block size) are checked under C09.',
     trusted_base=COMMON_TRUST + ['Spec/Rfc.lean as the rendering of RFC 9639 section 9'],
     assumptions=['samples fit the declared depth'],
 )
